@@ -70,7 +70,7 @@ class Query:
                  shares=DEFAULT_SHARES, form=None, unwind=2200, unwindset=(), flags=(),
                  timeout=600, mem_gb=12, symbolic=True, shape=None, entry="harness",
                  with_backend=True, with_spec=True, gen_srcs=(), includes=(), no_witness=False,
-                 partial_loops=False, cc_flags=(), nondet_static=False, group=None):
+                 partial_loops=False, cc_flags=(), nondet_static=False, group=None, partial_loop=None, cost=None):
         self.name = name
         self.harness = harness
         self.repo_srcs = list(repo_srcs)
@@ -96,6 +96,9 @@ class Query:
         self.cc_flags = list(cc_flags)
         self.nondet_static = nondet_static
         self.group = group or name.split(":")[0]
+        self.partial_loop = partial_loop   # dict(src=repo-relative file, pattern=source text of the loop head, iters=n)
+        self.cost = cost if cost is not None else timeout
+        self.asm_parts = []
 
     def descr(self):
         return {"query": self.name, "harness": self.harness, "backend": self.backend,
@@ -125,8 +128,17 @@ def write_config(dirpath, shares):
                 "#define ASCON_MASKED_MAX_SHARES %d\n" % shares)
 
 
+import threading
+_gen_lock = threading.Lock()
+
+
 def sources_for(q, run_dir, native=False):
     """Return (list of source paths, list of -D/-I flags) for query q."""
+    with _gen_lock:
+        return _sources_for(q, run_dir, native)
+
+
+def _sources_for(q, run_dir, native=False):
     bdefs, perm_src, snp_src = BACKENDS[q.backend]
     cfgdir = os.path.join(run_dir, "cfg-%d-%d-%d" % q.shares)
     if not os.path.exists(os.path.join(cfgdir, "config.h")):
@@ -235,6 +247,25 @@ def compile_goto(q, run_dir, wdir, extra_defs=()):
     return gb, cmd, out
 
 
+def find_loop(gb, pl):
+    """Identify the CBMC loop id of the loop whose head is the source line containing pl['pattern'] in pl['src']."""
+    path = os.path.join(REPO, pl["src"])
+    lines = [i + 1 for i, l in enumerate(open(path)) if pl["pattern"] in l]
+    if len(lines) != 1:
+        return None
+    rc, out, _ = run_cmd(["cbmc", gb, "--show-loops"], 120)
+    cur = None
+    for l in out.splitlines():
+        m = re.match(r"^Loop (\S+):", l)
+        if m:
+            cur = m.group(1)
+            continue
+        m = re.match(r"^\s*file (\S+) line (\d+) function", l)
+        if m and cur and m.group(1).endswith(pl["src"]) and int(m.group(2)) == lines[0]:
+            return cur
+    return None
+
+
 def cbmc_cmd(q, gb, trace=False):
     cmd = ["cbmc", gb, "--function", q.entry] + CBMC_BASE + q.flags
     if q.unwindset:
@@ -250,9 +281,21 @@ def cbmc_cmd(q, gb, trace=False):
 
 
 def run_query(q, run_dir):
+    try:
+        return _run_query(q, run_dir)
+    except Exception:
+        import traceback
+        r = Result(q)
+        r.detail = "engine exception: " + traceback.format_exc()[-1500:]
+        return r
+
+
+def _run_query(q, run_dir):
     r = Result(q)
     wdir = tempfile.mkdtemp(prefix="q-", dir=run_dir)
     r.workdir = wdir
+    with open(os.path.join(wdir, "query.txt"), "w") as f:
+        f.write(q.name + "\n")
     t0 = time.time()
     gb, ccmd, cout = compile_goto(q, run_dir, wdir, ["-DNOWITNESS"] if q.no_witness else [])
     if gb is None:
@@ -261,6 +304,13 @@ def run_query(q, run_dir):
         r.cmd = " ".join(ccmd)
         r.wall = time.time() - t0
         return r
+    if q.partial_loop:
+        lid = find_loop(gb, q.partial_loop)
+        if lid is None:
+            r.detail = "partial-loop: loop `%s` of %s not found in the goto program" % (q.partial_loop["pattern"], q.partial_loop["src"])
+            return r
+        q.unwindset = [u for u in q.unwindset if not u.startswith(lid + ":")] + ["%s:%d" % (lid, q.partial_loop.get("iters", 1))]
+        q.partial_loops = True
     cmd = cbmc_cmd(q, gb)
     r.cmd = " ".join(cmd)
     rc, out, wall = run_cmd(["/usr/bin/time", "-f", "MAXRSS %M"] + cmd, q.timeout, q.mem_gb)
@@ -282,7 +332,11 @@ def run_query(q, run_dir):
     if any(st in ("UNKNOWN", "ERROR") for _, _, _, st in props):
         r.detail = "property with UNKNOWN/ERROR status"
         return r
-    failed = [(pid, line, desc) for pid, line, desc, st in props if st == "FAILURE"]
+    # obligations whose text starts with MUSTFAIL are existence claims: the solver must find a witness
+    mustfail_ok = [(pid, line, desc) for pid, line, desc, st in props if desc.startswith("MUSTFAIL") and st == "FAILURE"]
+    mustfail_bad = [(pid, line, desc) for pid, line, desc, st in props if desc.startswith("MUSTFAIL") and st == "SUCCESS"]
+    props = [p for p in props if not p[2].startswith("MUSTFAIL")]
+    failed = [(pid, line, desc) for pid, line, desc, st in props if st == "FAILURE"] + mustfail_bad
     witness = [f for f in failed if f[2] == "WITNESS"]
     real = [f for f in failed if f[2] != "WITNESS"]
     r.failed = ["%s line %s: %s" % f for f in real]
@@ -393,7 +447,7 @@ def run_pool(queries, run_dir, jobs, progress=True, budget_s=None):
     results = []
     t0 = time.time()
     # expensive first
-    order = sorted(range(len(queries)), key=lambda i: -queries[i].timeout)
+    order = sorted(range(len(queries)), key=lambda i: -queries[i].cost)
     with cf.ThreadPoolExecutor(max_workers=jobs) as ex:
         futs = {ex.submit(run_query, queries[i], run_dir): i for i in order}
         done = 0
